@@ -1,15 +1,16 @@
-/* C10 (and C07 safety): secp256k1_borromean_verify - gating, indexing by ring sizes, challenge wiring,
- * field order of secp256k1_borromean_hash, and the final 32-byte comparison, for every ring layout the
- * range-proof verifier can produce (1..32 rings of 1..4 members), every e0, message, scalars and keys.
- * Oracles (assumed, call-site stubs with watch-style logs): secp256k1_ecmult, secp256k1_ge_set_gej_var.
- * sha256_write/_finalize: stream contracts of hash_log.h as stubs; the watch (epoch, position) is arbitrary, so every assertion about it
- * holds for every hash computation and every byte position.
- * Numbering: ring member k (global index, ring i, position j) uses the challenge produced by hash epoch k;
- * epoch k hashes  (j == 0 ? e0 : ser33(R_{k-1})) || m || be32(i) || be32(j);  the last epoch hashes
- * ser33(R_last(0)) || ... || ser33(R_last(nrings-1)) || m  and is compared with e0. */
+/* C10 (and C07 safety): secp256k1_borromean_verify - gating, challenge wiring, field order of
+ * secp256k1_borromean_hash and the final 32-byte comparison, for every ring layout of 1..MAXRINGS rings of
+ * 1..4 members, every e0, message, scalars and keys.
+ * Oracles (assumed, call-site stubs): secp256k1_ecmult, secp256k1_ge_set_gej_var; sha256_write/_finalize stream stubs.
+ * Nothing here depends on the ORDER or NUMBER of oracle calls: the evaluation of ring member k is the ecmult call
+ * whose operands have the VALUES (pubs[k], s[k]); the challenge hash of member (ring i, position j) is the hash whose
+ * content ends with be32(i) || be32(j); the closing hash is the one of length 33*nrings + |m|; the compressed point
+ * a challenge hash starts with is found through the value chain ecmult result -> ge_set_gej_var input.
+ * Members with identical (key, scalar) VALUES are indistinguishable by value: the wiring statements are made for members
+ * whose values differ from all earlier members (the gate statements are made for all). */
 #define RP_STUB_ECMULT
 #define RP_STUB_SET_GEJ
-#define RP_STUB_SHA
+#define RP_STUB_SHA_KEYED
 #include "assumed_rangeproof.h"
 #include "src/secp256k1.c"
 #include "post.h"
@@ -17,80 +18,86 @@
 #define MAXRINGS 32
 #endif
 #define MAXPUB (4 * MAXRINGS)
-uint64_t nondet_bo_u64(void); int nondet_bo_int(void);
 
 void h_borromean_verify(void) {
     INPUT(size_t, nrings); INPUT_ARR(size_t, rsizes, 32); INPUT_ARR(unsigned char, e0, 32); INPUT_ARR(unsigned char, m, 32);
-    INPUT(_Bool, use_ev); INPUT(int, we); INPUT(uint64_t, wpos); INPUT(int, k); INPUT(int, c);
+    INPUT(_Bool, use_ev); INPUT(uint64_t, wpos); INPUT(size_t, k); INPUT(_Bool, prev);
     secp256k1_scalar s[MAXPUB], ev[MAXPUB]; secp256k1_gej pubs[MAXPUB]; secp256k1_hash_ctx hc; size_t total = 0, i, start[33]; int ret;
-    /* fixed arrays of the largest layout (symbolic-size arrays of 128-byte structs are not tractable); indices beyond
-     * `total` are still inside the arrays, so exact-capacity indexing is the obligation of the CALLERS (C07/C10 units:
-     * preconditions of the borromean_verify stub) */
-    size_t ki = 0, kj = 0, ci = 0, cj = 0;   /* ring and position of members k and c */
+    int uniq = 1;                 /* no earlier member has the same (key, scalar) VALUES as the watched one: then the value identifies the call */
+    size_t ki = 0, kj = 0, w;     /* ring and position of member k; w = the member whose curve evaluation is watched (k, or k-1 when prev) */
+    /* fixed arrays of the largest layout (symbolic-size arrays of 128-byte structs are not tractable); exact-capacity
+     * indexing is the obligation of the CALLERS (preconditions of the borromean_verify stub in the C07/C10 units) */
     __CPROVER_assume(nrings >= 1 && nrings <= MAXRINGS);
     for (i = 0; i < MAXRINGS; i++) { start[i] = total; if (i < nrings) { __CPROVER_assume(rsizes[i] >= 1 && rsizes[i] <= 4); total += rsizes[i]; } }
-    for (i = 0; i < MAXRINGS; i++) if (i < nrings) {
-        if ((size_t)k >= start[i] && (size_t)k < start[i] + rsizes[i]) { ki = i; kj = (size_t)k - start[i]; }
-        if ((size_t)c >= start[i] && (size_t)c < start[i] + rsizes[i]) { ci = i; cj = (size_t)c - start[i]; }
-    }
-    for (i = 0; i < MAXPUB; i++) if (i < total) {        /* representation invariants of the inputs */
-        __CPROVER_assume(rp_scalar_ok(&s[i]) && rp_gej_ok(&pubs[i]));
-    }
-    __CPROVER_assume(k >= 0 && c >= 0 && we >= 0);
+    __CPROVER_assume(k < total);
+    for (i = 0; i < MAXRINGS; i++) if (i < nrings && k >= start[i] && k < start[i] + rsizes[i]) { ki = i; kj = k - start[i]; }
+    for (i = 0; i < MAXPUB; i++) if (i < total) __CPROVER_assume(rp_scalar_ok(&s[i]) && rp_gej_ok(&pubs[i]));   /* representation invariants of the inputs */
+    __CPROVER_assume(!prev || kj > 0);
+    w = prev ? k - 1 : k;
+    for (i = 0; i < MAXPUB; i++) if (i < w && SC_EQ(s[i], s[w]) && GEJ_VEQ(pubs[i], pubs[w])) uniq = 0;
     hc.fn_sha256_compression = secp256k1_sha256_transform;
-    HASHLOG_RESET(); g_we = we; g_wpos = wpos; g_em_n = 0; g_em_hit = 0; g_em_watch = k; g_sg_n = 0; g_sg_hit = 0; g_sg_watch = c;
+    KH_RESET(); g_kh_ki = (uint32_t)ki; g_kh_kj = (uint32_t)kj; g_kh_clen = 33 * (uint64_t)nrings + 32; g_wpos = wpos;
+    g_em_n = 0; g_em_hit = 0; g_em_watch = -1; g_em_by_value = 1; g_em_key_a = pubs[w]; g_em_key_ng = s[w];
+    g_sg_n = 0; g_sg_hit = 0; g_sg_watch = -1; g_sg_by_value = 0; g_em_hit_idx = -1;
     ret = secp256k1_borromean_verify(&hc, use_ev ? ev : NULL, e0, s, pubs, rsizes, nrings, m, 32);
     __CPROVER_assert(ret == 0 || ret == 1, "C10 borromean: returns 0 or 1");
-    __CPROVER_assert(g_em_n <= (int)total && g_sg_n <= g_em_n && g_fin_n <= (int)total + 1, "C10 borromean: at most one curve evaluation per ring member, one hash per member plus the final one");
     if (ret == 1) {
-        __CPROVER_assert(g_em_n == (int)total && g_sg_n == (int)total && g_fin_n == (int)total + 1, "C10 borromean: acceptance implies every ring member was evaluated exactly once");
-        if ((size_t)k < total) {
-            __CPROVER_assert(!secp256k1_scalar_is_zero(&s[k]) && !pubs[k].infinity, "C10 borromean: accepts only if every s != 0 and every key is not at infinity");
-            __CPROVER_assert(g_em_hit && g_em_ap == &pubs[k] && g_em_ngp == &s[k] && g_em_rinf == 0, "C10 borromean: member k evaluated as s[k]*G + e*pubs[k] (indexing by running count), result not at infinity");
-            if (we == k) {
-                __CPROVER_assert(g_w_fin && be256(g_w_dig) < N_() && be256(g_w_dig) != 0 && sval(&g_em_na) == be256(g_w_dig), "C10 borromean: challenge of member k is hash k, as a scalar, without overflow and nonzero");
-                if (use_ev) __CPROVER_assert(SC_EQ(ev[k], g_em_na), "C10 borromean: saved challenge k is the challenge used");
-            }
+        __CPROVER_assert(!secp256k1_scalar_is_zero(&s[k]) && !pubs[k].infinity, "C10 borromean: accepts only if every s != 0 and every key is not at infinity");
+        __CPROVER_assert(g_em_hit && g_em_rinf == 0 && g_em.has_na, "C10 borromean: every member is evaluated as s*G + e*P on its own key and scalar, result not at infinity");
+        __CPROVER_assert(g_kh.fin, "C10 borromean: the challenge hash of every member (content ending in its ring and position) is computed");
+        if (!prev && uniq) {
+            __CPROVER_assert(be256(g_kh.dig) < N_() && be256(g_kh.dig) != 0 && sval(&g_em_na) == be256(g_kh.dig), "C10 borromean: the challenge of member (i,j) is the hash ending in (i,j), as a scalar, without overflow and nonzero");
+            if (use_ev) __CPROVER_assert(SC_EQ(ev[k], g_em_na), "C10 borromean: saved challenge k is the challenge used");
         }
+        __CPROVER_assert(g_kh.cfin && memcmp(e0, g_kh.cdig, 32) == 0, "C10 borromean: accepts only if all 32 bytes of e0 equal the closing hash (33 bytes per ring, then the message)");
     }
-    /* field order of every challenge hash (epoch we < total), whatever the verdict */
-    if ((size_t)we < total && we == k && g_w_fin) {
+    if (g_kh.cfin) __CPROVER_assert(ret == (memcmp(e0, g_kh.cdig, 32) == 0), "C10 borromean: once the closing hash is computed the verdict is the comparison of all 32 bytes");
+    /* field order of the challenge hash of member (ki,kj), on accepting paths */
+    if (ret == 1 && g_kh.fin) {
         uint64_t elen = (kj == 0) ? 32 : 33;
-        /* (the first challenge of a later ring shares its epoch with the closing-hash write of the previous ring, which comes
-         *  first; the epoch-start record of hash_log.h then describes that write, so the initial state is checked elsewhere) */
-        if (ki == 0 || kj > 0) __CPROVER_assert(g_w_started && g_w_b0 == 0 && g_w_s0 == 0x6a09e667ul && g_w_s7 == 0x5be0cd19ul, "C10 borromean: challenge hash is plain SHA-256 from the initial state");
-        __CPROVER_assert(g_w_end == elen + 32 + 8, "C10 borromean: challenge hash length = |e| + |m| + 4 + 4");
-        if (g_wpos < g_w_end) {
-            __CPROVER_assert(g_w_hit, "C10 borromean: every position of the challenge hash is written");
-            if (g_wpos < elen) {
-                if (kj == 0) __CPROVER_assert(g_w_byte == e0[g_wpos], "C10 borromean: first challenge of a ring hashes e0 first");
-                else if (c == k - 1 && g_sg_hit) {
-                    unsigned char ser[33]; secp256k1_ge t = g_sg_r;
-                    secp256k1_eckey_pubkey_serialize33(&t, ser);
-                    __CPROVER_assert(g_w_byte == ser[g_wpos], "C10 borromean: later challenges hash the compressed previous R first");
-                }
-            } else if (g_wpos < elen + 32) __CPROVER_assert(g_w_byte == m[g_wpos - elen], "C10 borromean: then the message");
-            else if (g_wpos < elen + 36) __CPROVER_assert(g_w_byte == (unsigned char)((uint32_t)ki >> (8 * (3 - (g_wpos - elen - 32)))), "C10 borromean: then the ring index, big endian");
-            else __CPROVER_assert(g_w_byte == (unsigned char)((uint32_t)kj >> (8 * (3 - (g_wpos - elen - 36)))), "C10 borromean: then the position in the ring, big endian");
+        __CPROVER_assert(g_kh.s0 == 0x6a09e667ul, "C10 borromean: challenge hash is plain SHA-256 from the initial state");
+        __CPROVER_assert(g_kh.end == elen + 32 + 8, "C10 borromean: challenge hash length = |e| + |m| + 4 + 4");
+        if (g_wpos < elen + 32) {
+            __CPROVER_assert(g_kh.hit, "C10 borromean: every position of the challenge hash is written");
+            if (g_wpos >= elen) __CPROVER_assert(g_kh.byte == m[g_wpos - elen], "C10 borromean: the message follows e");
+            else if (kj == 0) __CPROVER_assert(g_kh.byte == e0[g_wpos], "C10 borromean: first challenge of a ring hashes e0 first");
         }
     }
-    /* the closing hash and the comparison with e0.  Its per-ring writes (compressed last R of each ring) are interleaved with the
-     * challenge hashes, i.e. spread over earlier epochs of the stream log; what the log of the LAST epoch shows is that 33 bytes per
-     * earlier ring had been absorbed, that the compressed last R of the last ring and then the message follow, and the digest compared. */
-    if ((size_t)we == total && g_w_fin) {
-        __CPROVER_assert(g_em_n == (int)total, "C10 borromean: closing hash only after all members");
-        __CPROVER_assert(g_w_started && g_w_b0 == 33 * (uint64_t)(nrings - 1) && g_w_end == 33 * (uint64_t)nrings + 32, "C10 borromean: closing hash = 33 bytes per ring, then |m| bytes");
-        if (g_wpos >= 33 * (uint64_t)(nrings - 1) && g_wpos < 33 * (uint64_t)nrings && (size_t)c == total - 1 && g_sg_hit) {
-            unsigned char ser[33]; secp256k1_ge t = g_sg_r;
-            secp256k1_eckey_pubkey_serialize33(&t, ser);
-            __CPROVER_assert(g_w_hit && g_w_byte == ser[g_wpos - 33 * (uint64_t)(nrings - 1)], "C10 borromean: the last 33 ring bytes of the closing hash are the compressed last R of the last ring");
-        }
-        __CPROVER_assert(ret == (memcmp(e0, g_w_dig, 32) == 0), "C10 borromean: verdict is the comparison of all 32 bytes of e0 with the closing hash");
-        if (g_wpos >= 33 * (uint64_t)nrings && g_wpos < g_w_end) __CPROVER_assert(g_w_hit && g_w_byte == m[g_wpos - 33 * (uint64_t)nrings], "C10 borromean: closing hash ends with the message");
-    }
+    REACH("borromean end");
     if (ret == 1 && nrings == MAXRINGS && total == MAXPUB) REACH("borromean accepts the largest layout");
-    if (ret == 1 && nrings == 1 && total == 1) REACH("borromean accepts a single-member ring");
-    if (ret == 0 && g_fin_n == (int)total + 1) REACH("borromean rejects on the final comparison");
-    if (ret == 0 && g_em_n < (int)total) REACH("borromean rejects early");
-    if (ret == 1 && use_ev && (size_t)we == total && g_wpos == 33 * (uint64_t)nrings + 5) REACH("borromean closing hash watched");
+    if (ret == 1 && total == 1) REACH("borromean accepts a single-member ring");
+    if (ret == 0 && g_kh.cfin) REACH("borromean rejects on the final comparison");
+    if (ret == 0 && !g_kh.cfin) REACH("borromean rejects early");
+    if (ret == 1 && use_ev && prev) REACH("borromean accepts, previous member watched");
+}
+
+/* second entry: the e part of a later challenge hash is the compressed R of the previous member (value chain) */
+void h_borromean_chain(void) {
+    INPUT(size_t, nrings); INPUT_ARR(size_t, crsizes, 32); INPUT_ARR(unsigned char, ce0, 32); INPUT_ARR(unsigned char, cm, 32);
+    size_t *rsizes = crsizes; unsigned char *e0 = ce0, *m = cm;
+    INPUT(uint64_t, wpos); INPUT(size_t, k);
+    secp256k1_scalar s[MAXPUB]; secp256k1_gej pubs[MAXPUB]; secp256k1_hash_ctx hc; size_t total = 0, i, start[33]; int ret, uniq = 1; size_t ki = 0, kj = 0;
+    __CPROVER_assume(nrings >= 1 && nrings <= MAXRINGS);
+    for (i = 0; i < MAXRINGS; i++) { start[i] = total; if (i < nrings) { __CPROVER_assume(rsizes[i] >= 1 && rsizes[i] <= 4); total += rsizes[i]; } }
+    __CPROVER_assume(k < total);
+    for (i = 0; i < MAXRINGS; i++) if (i < nrings && k >= start[i] && k < start[i] + rsizes[i]) { ki = i; kj = k - start[i]; }
+    for (i = 0; i < MAXPUB; i++) if (i < total) __CPROVER_assume(rp_scalar_ok(&s[i]) && rp_gej_ok(&pubs[i]));
+    __CPROVER_assume(kj > 0 && wpos < 33);
+    for (i = 0; i < MAXPUB; i++) if (i + 1 < k && SC_EQ(s[i], s[k - 1]) && GEJ_VEQ(pubs[i], pubs[k - 1])) uniq = 0;
+    hc.fn_sha256_compression = secp256k1_sha256_transform;
+    KH_RESET(); g_kh_ki = (uint32_t)ki; g_kh_kj = (uint32_t)kj; g_kh_clen = 33 * (uint64_t)nrings + 32; g_wpos = wpos;
+    /* the curve evaluation of member k-1 is found by operand values; the conversion to affine that belongs to it is the
+     * ge_set_gej_var call with the same call number (and, checked below, the same input value) */
+    g_em_n = 0; g_em_hit = 0; g_em_watch = -1; g_em_by_value = 1; g_em_key_a = pubs[k - 1]; g_em_key_ng = s[k - 1];
+    g_sg_n = 0; g_sg_hit = 0; g_sg_watch = -1; g_sg_by_value = 2; g_em_hit_idx = -1;
+    ret = secp256k1_borromean_verify(&hc, NULL, e0, s, pubs, rsizes, nrings, m, 32);
+    if (ret == 1 && g_em_hit && uniq) {
+        unsigned char ser[33]; secp256k1_ge t;
+        __CPROVER_assert(g_sg_hit && GEJ_VEQ(g_sgw.in, g_em_r) && g_kh.fin && g_kh.hit, "C10 borromean chain: the previous member's R is made affine and the hash ending in (i,j) covers its first 33 bytes");
+        t = g_sg_r;
+        secp256k1_eckey_pubkey_serialize33(&t, ser);
+        __CPROVER_assert(g_kh.byte == ser[g_wpos], "C10 borromean chain: a later challenge hashes the compressed previous R first");
+        REACH("borromean chain: accepted with the previous R identified");
+    }
+    REACH("borromean chain end");
 }
